@@ -147,6 +147,8 @@ GUARDS = [
         'mpq_set_str(MP(new_quantity.get()), quant.c_str(), 10);']),
     (['C04', 'C08'], 'parse_teaches_style_and_precision', 'src/amount.cc', r'bool\s+amount_t::parse\s*\(\s*std::istream&\s*in', [
         'else if (commodity_ && ! no_migrate_style) { commodity().add_flags(comm_flags); if (new_quantity->prec > commodity().precision()) commodity().set_precision(new_quantity->prec); }']),
+    (['C04'], 'only_format_fixes_display', 'src/textual.cc', r'void\s+instance_t::commodity_nomarket_directive\s*\(', [
+        'comm.add_flags(COMMODITY_NOMARKET);']),
     (['C04'], 'format_directive_fixes', 'src/textual.cc', r'void\s+instance_t::commodity_format_directive\s*\(', [
         'amt.parse(format, PARSE_NO_REDUCE);', 'amt.commodity().add_flags(COMMODITY_STYLE_NO_MIGRATE);']),
     (['C04'], 'no_migrate_read_from_commodity', 'src/amount.cc', r'bool\s+amount_t::parse\s*\(\s*std::istream&\s*in', [
